@@ -254,6 +254,8 @@ def run(ctx):
     h = rr.assert_handler
     asset_p = common.param_index_of_type(h, "^%s$" % ctx.N.rx("AssetInfo"))
     recv_p = common.param_index_of_type(h, r"^cosmwasm_std::\S*Addr$")
+    if recv_p is None:
+        recv_p = common.param_index_of_type(h, r"^std::string::String$")      # validated inside the handler instead of in the dispatcher
     prev_p = min_p = None
     found = False
     for g in common.bool_guards(P, h):
@@ -292,7 +294,7 @@ def run(ctx):
         where = common.span_of_block_term(h, g.b)
         if kind != "lt":
             r4.fail("C11.R4:non-strict", h.path, where, "rejects when growth <= minimum (an exactly sufficient delivery would be rejected)")
-        elif not bal or set(ctx.roots(bal[0][4][0])) != {P_(h, asset_p)} or set(ctx.roots(bal[0][4][3])) != {P_(h, recv_p)} or len(set(ctx.roots(sub[4][0]))) != 1:
+        elif not bal or set(ctx.roots(bal[0][4][0])) != {P_(h, asset_p)} or set(ctx.roots(bal[0][4][3])) not in ({P_(h, recv_p)}, {"valid(%s)" % P_(h, recv_p)}) or len(set(ctx.roots(sub[4][0]))) != 1:
             r4.fail("C11.R4:balance", h.path, where, "the minuend is not the current balance of (asset_info, receiver): %s" % ctx.show(sub[4][0], 4))
         elif not pm or not mm or pm.group(1) == mm.group(1):
             r4.fail("C11.R4:operands", h.path, where, "compares %s with %s: expected (balance - prev_balance) < minimum with two distinct parameters" % (sorted(ar), sorted(br)))
@@ -400,6 +402,9 @@ def run(ctx):
                     ok_to = True
             elif got_to == {base_ + ".to"}:
                 ok_to = True
+            elif got_to <= {"A:std::option::Option::None{}", "A:std::option::Option::Some{0=valid(%s.to~Some.0)}" % base_, "A:std::option::Option::Some{0=valid(%s.to)}" % base_} \
+                    and any("Some" in r_ for r_ in got_to):
+                ok_to = True        # the same validation written in place: `to.map(|a| api.addr_validate(&a)).transpose()?`
             if not ok_to:
                 r6.fail("C11.R6:%s:to" % label, f_.path, where, "%s entry passes `to` ⊢ %s, expected the (validated) message field" % (label, sorted(got_to)))
             else:
